@@ -45,19 +45,31 @@ func (o vfC10Outcome) String() string {
 }
 
 type vfC10RetrySpec struct {
+	Disabled    bool // the pool names no retry policy at all (time-limit clause on its own)
 	MaxAttempts int
-	WaitMs      int
+	Wait        time.Duration
 	Factor      float64
 	BackOff     string // "random" | "exponential"
 }
 
 func (p vfC10RetrySpec) String() string {
-	return fmt.Sprintf("retry{maxAttempts=%d wait=%dms factor=%v backOff=%s}", p.MaxAttempts, p.WaitMs, p.Factor, p.BackOff)
+	if p.Disabled {
+		return "retry{none}"
+	}
+	return fmt.Sprintf("retry{maxAttempts=%d wait=%v factor=%v backOff=%s}", p.MaxAttempts, p.Wait, p.Factor, p.BackOff)
+}
+
+// max is the number of attempts the pool may make for one client request.
+func (p vfC10RetrySpec) max() int {
+	if p.Disabled {
+		return 1
+	}
+	return p.MaxAttempts
 }
 
 // base wait (ns, float like the documented formula) after failed attempt i (0-based).
 func (p vfC10RetrySpec) base(i int) float64 {
-	b := float64(time.Duration(p.WaitMs) * time.Millisecond)
+	b := float64(p.Wait)
 	if p.BackOff == "exponential" {
 		b *= math.Pow(1.5, float64(i))
 	}
@@ -272,7 +284,6 @@ func vfC10NewEnv(rt *rapid.T, ps vfC10PoolSpec) *vfC10Env {
 	pool := map[string]interface{}{
 		"servers":     []interface{}{map[string]interface{}{"url": "http://127.0.0.1:9095"}, map[string]interface{}{"url": "http://127.0.0.1:9096"}},
 		"loadBalance": map[string]interface{}{"policy": "roundRobin"},
-		"retryPolicy": "rt",
 	}
 	fc := make([]interface{}, len(ps.FailureCodes))
 	for i, c := range ps.FailureCodes {
@@ -285,14 +296,17 @@ func vfC10NewEnv(rt *rapid.T, ps vfC10PoolSpec) *vfC10Env {
 	policies := map[string]resilience.Policy{}
 	rawRetry := map[string]interface{}{
 		"kind": "Retry", "name": "rt", "maxAttempts": ps.Retry.MaxAttempts,
-		"waitDuration": fmt.Sprintf("%dms", ps.Retry.WaitMs), "backOffPolicy": ps.Retry.BackOff,
+		"waitDuration": ps.Retry.Wait.String(), "backOffPolicy": ps.Retry.BackOff,
 		"randomizationFactor": ps.Retry.Factor,
 	}
-	rp, err := resilience.NewPolicy(rawRetry)
-	if err != nil {
-		rt.Fatalf("VF-INCONCLUSIVE retry policy rejected: %v (%v)", err, rawRetry)
+	if !ps.Retry.Disabled {
+		pool["retryPolicy"] = "rt"
+		rp, err := resilience.NewPolicy(rawRetry)
+		if err != nil {
+			rt.Fatalf("VF-INCONCLUSIVE retry policy rejected: %v (%v)", err, rawRetry)
+		}
+		policies["rt"] = rp
 	}
-	policies["rt"] = rp
 	if ps.Breaker != nil {
 		pool["circuitBreakerPolicy"] = "cb"
 		rawCB := map[string]interface{}{
@@ -448,15 +462,43 @@ func vfC10ExpectedAttempts(ps vfC10PoolSpec, plan vfC10Req) int {
 	if plan.Stream {
 		return 1
 	}
-	for i := 0; i < ps.Retry.MaxAttempts; i++ {
+	for i := 0; i < ps.Retry.max(); i++ {
 		if ps.success(plan.outcome(i)) {
 			return i + 1
 		}
 	}
-	return ps.Retry.MaxAttempts
+	return ps.Retry.max()
 }
 
 type vfC10Reporter func(key, format string, args ...interface{}) bool
+
+const (
+	// vfC10KeyAfterCancel: a further attempt was made although the cancellation was complete before
+	// the guaranteed part of the back-off could have elapsed, reproducibly.
+	vfC10KeyAfterCancel = "further attempt after the client's request was cancelled"
+	// vfC10KeyCancelRace: same observation, but only when the back-off timer had already expired by
+	// the time the retry loop looked at it (sub-microsecond waitDuration, or a scheduling stall):
+	// the loop then picks between "timer" and "cancelled" at random and never re-checks the context.
+	vfC10KeyCancelRace = "retry: further attempt after cancellation when the back-off timer has already expired (context not re-checked before the next attempt)"
+	// waits below this are "already expired" by the time the retry loop selects on them
+	vfC10TinyWait = 10 * time.Microsecond
+)
+
+// vfC10AttemptAfterCancel returns the index i of an attempt that was followed by another one
+// although the cancellation had completed before attempt i answered, or inside the guaranteed part
+// of the back-off after it; -1 if there is none.
+func vfC10AttemptAfterCancel(pol vfC10RetrySpec, res vfC10Result) int {
+	if res.CancelAt < 0 {
+		return -1
+	}
+	for i := 0; i+1 < len(res.Attempts); i++ {
+		a := res.Attempts[i]
+		if res.CancelAt <= a.End || res.CancelAt < a.End+pol.lowerBound(i) {
+			return i
+		}
+	}
+	return -1
+}
 
 // vfC10Judge checks one admitted (not short-circuited) client request against the statement.
 // It returns false when a violation was reported (known finding: case abandoned).
@@ -479,7 +521,10 @@ func vfC10Judge(vf *vfCollector, ps vfC10PoolSpec, plan vfC10Req, res vfC10Resul
 	if plan.Stream && n > 1 {
 		return report("stream request attempted more than once", "%d attempts for a stream request", n)
 	}
-	if n > pol.MaxAttempts {
+	if n > pol.max() {
+		if pol.Disabled {
+			return report("more than one attempt without a retry policy", "%d attempts", n)
+		}
 		return report("more attempts than maxAttempts", "%d attempts, maxAttempts=%d", n, pol.MaxAttempts)
 	}
 	// --- stops at the first success
@@ -499,13 +544,11 @@ func vfC10Judge(vf *vfCollector, ps vfC10PoolSpec, plan vfC10Req, res vfC10Resul
 	// --- no further attempt once the client's request is cancelled. Applicable when the
 	// cancellation had completed before the guaranteed part of the back-off could have elapsed.
 	if cancelled {
-		for i := 0; i+1 < n; i++ {
+		if i := vfC10AttemptAfterCancel(pol, res); i >= 0 {
 			a := res.Attempts[i]
-			if res.CancelAt <= a.End || res.CancelAt < a.End+pol.lowerBound(i) {
-				return report("further attempt after the client's request was cancelled",
-					"cancelled at %v; attempt %d ended at %v (guaranteed back-off %v) and attempt %d started at %v",
-					res.CancelAt, i, a.End, pol.lowerBound(i), i+1, res.Attempts[i+1].Start)
-			}
+			return report(vfC10KeyAfterCancel,
+				"cancelled at %v; attempt %d ended at %v (guaranteed back-off %v) and attempt %d started at %v",
+				res.CancelAt, i, a.End, pol.lowerBound(i), i+1, res.Attempts[i+1].Start)
 		}
 	} else {
 		// --- retries do happen (doc: "maxAttempts: the maximum number of attempts (including the
@@ -593,7 +636,7 @@ var vfC10Codes = []int{200, 201, 404, 429, 500, 503}
 func vfC10GenRetry(rt *rapid.T) vfC10RetrySpec {
 	return vfC10RetrySpec{
 		MaxAttempts: rapid.IntRange(1, 5).Draw(rt, "maxAttempts"),
-		WaitMs:      rapid.IntRange(1, 8).Draw(rt, "waitMs"),
+		Wait:        time.Duration(rapid.IntRange(1, 8).Draw(rt, "waitMs")) * time.Millisecond,
 		Factor:      rapid.SampledFrom([]float64{0, 0.5, 1, 0.25}).Draw(rt, "factor"),
 		BackOff:     rapid.SampledFrom([]string{"random", "exponential"}).Draw(rt, "backOff"),
 	}
@@ -607,7 +650,7 @@ func vfC10GenFailureCodes(rt *rapid.T) []int {
 // what an implementation that over-runs the bound would meet). shape steers towards the classes the
 // property quantifies over: success at attempt i, all fail, mixed.
 func vfC10GenScript(rt *rapid.T, ps vfC10PoolSpec, allowBlock func(i int) bool) []vfC10Outcome {
-	n := ps.Retry.MaxAttempts + 2
+	n := ps.Retry.max() + 2
 	var okCodes []int
 	for _, c := range vfC10Codes {
 		if !ps.isFailureCode(c) {
